@@ -83,10 +83,28 @@ def load(path):
     return [json.loads(l) for l in open(path)]
 
 
+class ProcessDeath(Exception):
+    """A decoder took the whole harness process down (abort / fault below Rust)."""
+    def __init__(self, rc, case, log):
+        Exception.__init__(self, "harness died with status %s" % rc)
+        self.rc, self.case, self.log = rc, case, log
+
+
 def run_harness(binp, wd, name, args, env=None):
     out = os.path.join(wd, name)
     rc, log = vlib.sh([binp, "--out", out] + args, timeout=3000, env=env)
     if rc != 0:
+        # run again on one thread, naming each case before it is decoded: the last one named is the input
+        trace = os.path.join(wd, name + ".trace")
+        if os.path.exists(trace):
+            os.remove(trace)
+        e2 = dict(env or {})
+        e2["VERIF_C09_TRACE"] = trace
+        rc2, log2 = vlib.sh([binp, "--out", out + ".rerun", "--threads", "1"] + args, timeout=3000, env=e2)
+        if rc2 != 0 and os.path.exists(trace):
+            lines = [l for l in open(trace) if l.strip()]
+            if lines:
+                raise ProcessDeath(rc2, json.loads(lines[-1]), log2[-1500:])
         raise vlib.Infra("c09 harness failed: " + log[-2000:])
     return load(out)
 
@@ -127,16 +145,28 @@ def run(tier, replay):
     corpus = sorted(glob.glob(os.path.join(vlib.VERIF, "corpus", PROP, "*.json")))
     if replay:
         corpus = [replay]
-    for f in corpus:
-        rows += run_harness(binp, wd, "corpus.jsonl", ["--replay", f])
-    n_corpus = len(rows)
-    if not replay:
-        if tier == "quick":
-            rows += run_harness(binp, wd, "gen.jsonl", ["--scale", "1"])
-        else:
-            for k in range(4):
-                rows += run_harness(binp, wd, "gen%d.jsonl" % k, ["--scale", "3"],
-                                    env={"VERIF_SEED": str(vlib.seed() * 1000 + k)})
+    try:
+        for f in corpus:
+            rows += run_harness(binp, wd, "corpus.jsonl", ["--replay", f])
+        n_corpus = len(rows)
+        if not replay:
+            if tier == "quick":
+                rows += run_harness(binp, wd, "gen.jsonl", ["--scale", "1"])
+            else:
+                for k in range(4):
+                    rows += run_harness(binp, wd, "gen%d.jsonl" % k, ["--scale", "3"],
+                                        env={"VERIF_SEED": str(vlib.seed() * 1000 + k)})
+    except ProcessDeath as e:
+        # worse than a panic: the input killed the process (abort or fault below Rust)
+        V.violation({"property": PROP, "kind": "oracle",
+                     "what": ["decoding this input took the whole process down (exit status %s): not a Rust panic, "
+                              "so neither catch_unwind nor a listener's per-request isolation contains it" % e.rc],
+                     "case": e.case, "log_tail": e.log, "replay_cmd": "./check C09 --replay <this file>"})
+        cov = dict(proof)
+        cov.update({"evaluations": len(rows) + 1, "distinct_nontrivial": 0, "traces_validated_against_impl": len(rows),
+                    "rule": "run aborted at the first input that killed the harness process",
+                    "samples": [e.case], "oracle_failures": 1})
+        return V.finish(cov, ["run aborted: see the violation"])
 
     model = eval_model(rows)
 
